@@ -13,7 +13,8 @@
      pwl : y1 = left limits of the pieces, y2 = right limits
      disc: y1 = values, y2 = multiplicities (as rationals n/1); Len(y1) = Len(x) *)
 EXTENDS Integers, Sequences, FiniteSets, TLC, Rat, Defs, FuncOps, Json
-CONSTANTS Kind, T0, T, MaxOps, NBase
+CONSTANTS Kind, T0, T, MaxOps, NBase,
+          Accu        \* TRUE: object 3 starts as the zero function with a single piece (the accumulator idiom)
 VARIABLES obj, gy, gm, bx, nops, op
 vars == <<obj, gy, gm, bx, nops, op>>
 View == <<obj, gy, gm, bx, nops>>      \* the last operation is an observation variable
@@ -34,6 +35,8 @@ BaseFn(b, X) ==
    ELSE [x |-> X, y1 |-> [k \in 1..(Len(X)-1) |-> GenY1(b, k)],
          y2 |-> [k \in 1..(Len(X)-1) |-> IF Kind = "pwl" THEN GenY2(b, k) ELSE GenY1(b, k)]]
 Null == [x |-> <<>>, y1 |-> <<>>, y2 |-> <<>>]
+ZeroFn == IF Kind = "disc" THEN [x |-> <<T0, T>>, y1 |-> <<Zero, Zero>>, y2 |-> <<Zero, Zero>>]
+          ELSE [x |-> <<T0, T>>, y1 |-> <<Zero>>, y2 |-> <<Zero>>]
 Alloc(id) == obj[id].x # <<>>
 NoOp == [f |-> "init", d |-> 0, s |-> 0, c |-> Zero, ss |-> <<>>]
 ----------------------------------------------------------------------------
@@ -78,7 +81,7 @@ XSets ==
    ELSE { SortedSeq({T0,T} \cup S) : S \in SUBSET ((T0+1)..(T-1)) }
 Unit(b) == [c \in Bases |-> IF c = b THEN One ELSE Zero]
 Init == /\ bx \in [Bases -> XSets]
-        /\ obj = [id \in Ids |-> IF id <= NBase THEN BaseFn(id, bx[id]) ELSE Null]
+        /\ obj = [id \in Ids |-> IF id <= NBase THEN BaseFn(id, bx[id]) ELSE IF Accu THEN ZeroFn ELSE Null]
         /\ gy = [id \in Ids |-> IF id <= NBase THEN Unit(id) ELSE [c \in Bases |-> Zero]]
         /\ gm = [id \in Ids |-> IF id <= NBase THEN Unit(id) ELSE [c \in Bases |-> Zero]]
         /\ nops = 0 /\ op = NoOp
